@@ -156,3 +156,14 @@ func solveAll(dir string, obls []*Obligation, timeout time.Duration, thorough bo
 	close(ch)
 	wg.Wait()
 }
+
+// forgetCached drops the cached verdicts of the given obligations so that they are solved afresh.
+func forgetCached(obls []*Obligation) {
+	smtCacheMu.Lock()
+	defer smtCacheMu.Unlock()
+	for _, o := range obls {
+		if i := strings.Index(o.SMTFile, "(set-option"); i >= 0 {
+			delete(smtCache, sha256.Sum256([]byte(o.SMTFile[i:])))
+		}
+	}
+}
